@@ -351,7 +351,7 @@ Section Eng.
     else if String.eqb pl groups_pl then Some gids else None.
 
   Definition eng_is_role (pl k : string) : bool :=
-    String.eqb pl groups_pl && (String.eqb k "parents" || String.eqb k "children").
+    String.eqb pl groups_pl && (String.eqb k "parents" || String.eqb k "children" || String.eqb k "heads").
 
   Definition eng_period_ok (pk : string) : bool :=
     match parse_period pk with Ok _ => true | Err _ => false end.
